@@ -442,6 +442,7 @@ type Contract struct {
 	Requires  []*Clause
 	Ensures   []*Clause
 	Exits     []*Clause // exit-state assertions that may mention locals
+	Befores   map[string][]*Clause // assertions in the state just before each call of the named callee
 	Modifies  []string // location specs; nil => default frame; "nothing" => none
 	HasModif  bool
 	Pure      bool
@@ -602,7 +603,7 @@ func clauseWord(l string) string {
 
 func isClauseStart(w string) bool {
 	switch w {
-	case "requires", "ensures", "exit", "modifies", "pure", "loop", "assume", "trusted", "noinline", "serves", "option", "induction", "uses", "trigger", "recv", "ghostdef":
+	case "requires", "ensures", "exit", "before", "modifies", "pure", "loop", "assume", "trusted", "noinline", "serves", "option", "induction", "uses", "trigger", "recv", "ghostdef":
 		return true
 	}
 	return strings.HasPrefix(w, "ensures[") || strings.HasPrefix(w, "requires[")
@@ -798,6 +799,23 @@ func (db *SpecDB) parseDecl(d *rawDecl) error {
 			}
 			cl.Ord = len(c.Ensures) + 1
 			c.Ensures = append(c.Ensures, cl)
+		case "before":
+			// before F: expr  -- asserted in the state just before every call of F (a function with a contract) in this body;
+			// anchored on the callee's name, sees parameters and locals in scope
+			k := strings.Index(body, ":")
+			if k < 0 {
+				return fmt.Errorf("%s: bad before clause", c.Key)
+			}
+			callee := strings.TrimSpace(body[:k])
+			cl, err := mk("before", strings.TrimSpace(body[k+1:]))
+			if err != nil {
+				return err
+			}
+			if c.Befores == nil {
+				c.Befores = map[string][]*Clause{}
+			}
+			cl.Ord = len(c.Befores[callee]) + 1
+			c.Befores[callee] = append(c.Befores[callee], cl)
 		case "exit":
 			// exit-state assertion over parameters, results and function-level locals: checked at every return where all
 			// names it mentions are in scope; not part of the interface (callers do not see it)
